@@ -2,6 +2,8 @@ import Req.Client.Redirect
 import Req.Client.Authority
 import Req.Lemmas.C11
 import Req.Lemmas.C11Host
+import Req.Lemmas.C11Chain
+import Req.Lemmas.C11Hdr
 /-!
 C11 — Redirect policies are enforced exactly.
 
@@ -247,5 +249,165 @@ example : isRfc3986 ex_v4_a = true := by decide
 example : isIPv6address [58,58,102,102,102,102,58,49,46,50,46,51,46,52] = true := by decide
 example : isIPv6address [49,58,58,50,58,58,51] = false := by decide
 example : isIPv6address [49,58,50,58,51,58,52,58,53,58,54,58,55,58,56,58,57] = false := by decide
+
+/-! ## 2. Hop limit, disabled redirects, composition -/
+
+/-- **max_redirect**: MaxRedirectPolicy(n) lets the next hop through iff fewer than `n` requests
+have been made so far (`len(via) < n`; `via` includes the original request, so — like net/http's
+own default — `n` bounds the number of REQUESTS, i.e. at most `n - 1` redirects are followed). -/
+theorem max_redirect (n : Int) (req : Bytes) (via : Via) :
+    (maxRedirectPolicy n).check req via = .allow ↔ (via.length : Int) < n :=
+  max_check_iff n req via
+
+example : (maxRedirectPolicy 3).check [] ⟨⟨[], []⟩, [⟨[], []⟩]⟩ = .allow := by decide
+example : (maxRedirectPolicy 3).check [] ⟨⟨[], []⟩, [⟨[], []⟩, ⟨[], []⟩]⟩ = .deny := by decide
+example : (maxRedirectPolicy 0).check [] ⟨⟨[], []⟩, []⟩ = .deny := by decide
+
+/-- **no_redirect**: NoRedirectPolicy never allows, and what it returns is the
+"use the last response" sentinel, for every request and history. -/
+theorem no_redirect (req : Bytes) (via : Via) : noRedirectPolicy.check req via = .useLast := rfl
+
+/-- **compose_all**: the closure installed by SetRedirectPolicy allows a hop iff EVERY non-nil
+policy allows it (the header state the policies see is irrelevant to the decision). -/
+theorem compose_all (ps : List (Option Policy)) (req : Bytes) (h : Headers) (via : Via) :
+    (compose ps req h via).1 = .allow ↔ ∀ p, some p ∈ ps → p.check req via = .allow :=
+  compose_allow_iff ps req h via
+
+/-- **compose_first_refusal**: when the closure refuses, its error is the error of the first
+policy that refuses (everything before it allowed; nil entries are skipped). -/
+theorem compose_first_refusal (ps : List (Option Policy)) (req : Bytes) (h : Headers) (via : Via)
+    (d : Decision) (hd : d ≠ .allow) (hr : (compose ps req h via).1 = d) :
+    ∃ pre p post, ps = pre ++ some p :: post ∧ (∀ q, some q ∈ pre → q.check req via = .allow) ∧
+      p.check req via = d :=
+  compose_refusal ps req h via d hd hr
+
+example : (compose [none, some (maxRedirectPolicy 5), some sameHostRedirectPolicy] ex_v6_1p.render []
+    (viaOf ex_v6_1)).1 = .allow := by decide
+example : (compose [some noRedirectPolicy, some (maxRedirectPolicy 0)] [] [] (viaOf ex_v6_1)).1 = .useLast := by
+  decide
+example : (compose [some (maxRedirectPolicy 0), some noRedirectPolicy] [] [] (viaOf ex_v6_1)).1 = .deny := by
+  decide
+
+/-! ## 3. Chains -/
+
+/-- **no_request_without_permission** (the credential clause): in every redirect chain, every
+request after the first was permitted by EVERY configured policy, evaluated on the target's
+authority and on exactly the requests sent before it. Contrapositive: an origin any policy
+refuses receives no request at all — hence no header, no credential. -/
+theorem no_request_without_permission (ps : List (Option Policy)) (h0 : Hop) (targets : List Bytes)
+    (k : Nat) (hk : k + 1 < (runChain ps h0 targets).1.length) :
+    ∀ p, some p ∈ ps →
+      p.check ((runChain ps h0 targets).1[k + 1]).host
+        ⟨h0, ((runChain ps h0 targets).1.drop 1).take k⟩ = .allow := by
+  obtain ⟨later, hs⟩ := follow_spec ps h0.hdr targets { via := { first := h0 } }
+  have hsent : (runChain ps h0 targets).1 = h0 :: later := by
+    simpa [runChain, Via.toList] using hs.sent
+  intro p hp
+  have hk' : k < later.length := by rw [hsent] at hk; simpa using hk
+  have := allPermitted_get ps h0 [] later hs.permitted k hk' p hp
+  simpa [hsent] using this
+
+/-- **sent_hosts_prefix**: requests go to the chain's origins in order, nowhere else. -/
+theorem sent_hosts_prefix (ps : List (Option Policy)) (h0 : Hop) (targets : List Bytes) :
+    (runChain ps h0 targets).1.map (·.host) =
+      (h0.host :: targets).take (runChain ps h0 targets).1.length := by
+  obtain ⟨later, hs⟩ := follow_spec ps h0.hdr targets { via := { first := h0 } }
+  have hsent : (runChain ps h0 targets).1 = h0 :: later := by
+    simpa [runChain, Via.toList] using hs.sent
+  rw [hsent]
+  simp [hs.hosts]
+
+/-- **stops_only_on_refusal** (the converse: policies are enforced *exactly*): if the chain was
+not followed to its end, some configured policy refused the very next target given what had
+been sent; and the outcome is `final` iff every target was requested. -/
+theorem stops_only_on_refusal (ps : List (Option Policy)) (h0 : Hop) (targets : List Bytes) :
+    let sent := (runChain ps h0 targets).1
+    ((runChain ps h0 targets).2 = .final ↔ sent.length = targets.length + 1) ∧
+    (sent.length < targets.length + 1 →
+      ∃ t, targets[sent.length - 1]? = some t ∧
+        ∃ p, some p ∈ ps ∧ p.check t ⟨h0, sent.drop 1⟩ ≠ .allow) := by
+  obtain ⟨later, hs⟩ := follow_spec ps h0.hdr targets { via := { first := h0 } }
+  have hsent : (runChain ps h0 targets).1 = h0 :: later := by
+    simpa [runChain, Via.toList] using hs.sent
+  simp only [hsent]
+  refine ⟨?_, ?_⟩
+  · have := hs.final
+    simp only [runChain] at this ⊢
+    rw [this]; simp
+  · intro hlt
+    have hlt' : later.length < targets.length := by simpa using hlt
+    obtain ⟨t, ht, p, hp, hne⟩ := hs.stop hlt'
+    exact ⟨t, by simpa using ht, p, hp, by simpa using hne⟩
+
+/-- **chain_bound**: with MaxRedirectPolicy(n) anywhere in the composition, no chain — however
+long, whatever the other policies — gets more than `max 1 n` requests (the original one plus at
+most `n - 1` redirects). -/
+theorem chain_bound (ps : List (Option Policy)) (n : Int) (hn : some (maxRedirectPolicy n) ∈ ps)
+    (h0 : Hop) (targets : List Bytes) :
+    ((runChain ps h0 targets).1.length : Int) ≤ max 1 n := by
+  obtain ⟨later, hs⟩ := follow_spec ps h0.hdr targets { via := { first := h0 } }
+  have hsent : (runChain ps h0 targets).1 = h0 :: later := by
+    simpa [runChain, Via.toList] using hs.sent
+  have := allPermitted_bound ps n hn h0 [] later hs.permitted
+  rw [hsent]
+  simp only [List.length_nil, List.length_cons] at this ⊢
+  omega
+
+/-- **no_redirect_never**: with NoRedirectPolicy anywhere in the composition only the original
+request is ever sent, and a chain that wanted to redirect does not end `final`. -/
+theorem no_redirect_never (ps : List (Option Policy)) (hn : some noRedirectPolicy ∈ ps)
+    (h0 : Hop) (targets : List Bytes) :
+    (runChain ps h0 targets).1 = [h0] ∧
+      (targets ≠ [] → (runChain ps h0 targets).2 ≠ .final) := by
+  obtain ⟨later, hs⟩ := follow_spec ps h0.hdr targets { via := { first := h0 } }
+  have hsent : (runChain ps h0 targets).1 = h0 :: later := by
+    simpa [runChain, Via.toList] using hs.sent
+  have hl : later = [] := allPermitted_no ps hn h0 [] later hs.permitted
+  subst hl
+  refine ⟨hsent, ?_⟩
+  intro hne hfin
+  have := hs.final.mp (by simpa [runChain] using hfin)
+  cases targets with
+  | nil => exact hne rfl
+  | cons t ts => simp at this
+
+/-- Non-vacuity / exactness of the bound: with MaxRedirectPolicy(3) alone a chain of five
+origins gets exactly three requests and the caller gets the refusal at hop 3. -/
+example :
+    (runChain [some (maxRedirectPolicy 3)] ⟨[97], []⟩ [[98], [99], [100], [101]]).1.map (·.host)
+      = [[97], [98], [99]] ∧
+    (runChain [some (maxRedirectPolicy 3)] ⟨[97], []⟩ [[98], [99], [100], [101]]).2 = .refused 3 := by
+  decide
+
+/-- SameHost + Max(5): `[::1]` → `[::1]:80` → `[::2]`: the third origin receives nothing. -/
+example :
+    (runChain [some sameHostRedirectPolicy, some (maxRedirectPolicy 5)] ⟨ex_v6_1.render, []⟩
+      [ex_v6_1p.render, ex_v6_2.render]).1.map (·.host) = [ex_v6_1.render, ex_v6_1p.render] := by
+  decide
+
+/-! ## 4. Headers -/
+
+/-- **always_copy_exact**: after AlwaysCopyHeaderRedirectPolicy(hs…) has run, for every header
+name `k`: if `k` is listed (names compared in canonical MIME form) and the new request had no
+value for it, it now has exactly the ORIGINAL request's (`via[0]`) values; in every other case
+the new request's values are unchanged. Nothing is copied from intermediate hops, nothing
+unlisted is added. -/
+theorem always_copy_exact (hs : List Bytes) (req : Headers) (via : Via) (k : Bytes) :
+    ((alwaysCopyHeaderRedirectPolicy hs).xform req via).values k =
+      if (∃ h ∈ hs, canonicalMIMEHeaderKey h = canonicalMIMEHeaderKey k) ∧ req.values k = []
+      then via.first.hdr.values k else req.values k :=
+  alwaysCopy_values hs req via.first.hdr k
+
+/-- …and it never refuses. -/
+theorem always_copy_allows (hs : List Bytes) (req : Bytes) (via : Via) :
+    (alwaysCopyHeaderRedirectPolicy hs).check req via = .allow := rfl
+
+/-- "authorization" listed in lower case; the redirected request lost `Authorization`
+(stripped by net/http), kept `X-A`: it gets the original token back, `X-A` is untouched. -/
+example :
+    let via : Via := ⟨⟨[], [(hAuthorization, [[116]]), ([88, 45, 65], [[49]])]⟩, []⟩
+    let out := (alwaysCopyHeaderRedirectPolicy [[97,117,116,104,111,114,105,122,97,116,105,111,110]]).xform
+      [([88, 45, 65], [[50]])] via
+    out.values hAuthorization = [[116]] ∧ out.values [88, 45, 65] = [[50]] := by decide
 
 end Req.Props.C11
